@@ -350,7 +350,7 @@ func c12CLIDefs(c *fw.Ctx) fw.Outcome {
 
 func init() {
 	libN := func(tier string) int64 { return tierN(tier, 40000, 1500000) }
-	cliN := func(tier string) int64 { return tierN(tier, 24, 200) }
+	cliN := func(tier string) int64 { return tierN(tier, 96, 1000) }
 	fw.Register(&fw.Property{
 		ID:          "C12",
 		Level:       "exploration",
